@@ -36,8 +36,9 @@ def lname(n):
 
 
 class Tr:
-    def __init__(self, consts=None, funcs=None, int_names=()):
-        self.consts = consts or {}      # python dotted name -> lean text
+    def __init__(self, consts=None, funcs=None, int_names=(), target_map=None):
+        self.consts = consts or {}      # python dotted name (or unparsed subscript, e.g. "self.orbit[5]") -> lean text
+        self.target_map = target_map or {}  # unparsed subscript assignment target (e.g. "new[5]") -> python-level name
         self.funcs = dict(FUNCS)
         self.funcs.update(funcs or {})
         self.int_names = set(int_names)  # names that are Nat-typed (exponents etc.)
@@ -79,6 +80,11 @@ class Tr:
             if d in ("np.pi", "math.pi", "numpy.pi"):
                 return "pi"
             raise Untranslatable(f"attribute {d}")
+        if isinstance(e, ast.Subscript):
+            d = ast.unparse(e)
+            if d in self.consts:
+                return self.consts[d]
+            raise Untranslatable(f"subscript {d}")
         if isinstance(e, ast.UnaryOp):
             if isinstance(e.op, ast.USub):
                 return f"(-{self.expr(e.operand)})"
@@ -86,6 +92,12 @@ class Tr:
                 return self.expr(e.operand)
             if isinstance(e.op, ast.Not):
                 return f"(¬ {self.expr(e.operand)})"
+        if isinstance(e, ast.BinOp) and isinstance(e.op, (ast.Mult, ast.Div)) and self._array_elts(e.left) is not None \
+                and self._array_elts(e.right) is None:
+            # numpy broadcasting of a 1-d array literal with a scalar: elementwise
+            b = self.expr(e.right)
+            op = "*" if isinstance(e.op, ast.Mult) else "/"
+            return "[" + ", ".join(f"({self.expr(x)} {op} {b})" for x in self._array_elts(e.left)) + "]"
         if isinstance(e, ast.BinOp):
             a = self.expr(e.left)
             if isinstance(e.op, ast.Pow):
@@ -164,6 +176,8 @@ class Tr:
     def target_names(self, t):
         if isinstance(t, ast.Name):
             return [t.id]
+        if isinstance(t, ast.Subscript) and ast.unparse(t) in self.target_map:
+            return [self.target_map[ast.unparse(t)]]
         if isinstance(t, (ast.Tuple, ast.List)):
             r = []
             for x in t.elts:
@@ -183,8 +197,11 @@ class Tr:
                 if wanted is not None and not (set(names) & wanted):
                     continue
                 t = s.targets[0]
+                if isinstance(t, ast.Subscript):
+                    t = ast.Name(id=names[0])
                 if isinstance(t, ast.Name):
                     lines.append(f"let {lname(t.id)} : R := {self.expr(s.value)}" if not isinstance(s.value, (ast.List, ast.Tuple)) and not self._is_array(s.value)
+                                 and not self._is_listy(s.value)
                                  else f"let {lname(t.id)} := {self.expr(s.value)}")
                 else:
                     if isinstance(s.value, (ast.Tuple, ast.List)) and len(s.value.elts) == len(t.elts):
@@ -216,19 +233,31 @@ class Tr:
     def _is_array(self, v):
         return isinstance(v, ast.Call) and self.dotted(v.func) in ("np.array", "numpy.array")
 
+    def _array_elts(self, v):
+        """elements of a 1-d array literal (list of scalars or np.array of one), else None"""
+        if self._is_array(v) and v.args:
+            v = v.args[0]
+        if isinstance(v, (ast.List, ast.Tuple)) and not any(isinstance(x, (ast.List, ast.Tuple)) for x in v.elts):
+            return v.elts
+        return None
+
+    def _is_listy(self, v):
+        return isinstance(v, ast.BinOp) and isinstance(v.op, (ast.Mult, ast.Div)) and self._array_elts(v.left) is not None \
+            and self._array_elts(v.right) is None
+
 
 def indent(s, n=2):
     return "\n".join(" " * n + l for l in s.split("\n"))
 
 
-def needed_names(stmts, outputs, inputs=()):
+def needed_names(stmts, outputs, inputs=(), tr=None):
     """names needed (transitively) to compute `outputs`, by a backward pass over the statement list"""
     wanted = set(outputs)
     inputs = set(inputs)
     def uses(node):
         return {n.id for n in ast.walk(node) if isinstance(n, ast.Name)}
     changed = True
-    tr = Tr()
+    tr = tr or Tr()
     while changed:
         changed = False
         def visit(ss):
@@ -266,7 +295,7 @@ def find_function(tree, qualname):
     return node
 
 
-def translate_slice(path, qualname, inputs, outputs, lean_name, result_expr=None, consts=None, funcs=None, stop_before=None):
+def translate_slice(path, qualname, inputs, outputs, lean_name, result_expr=None, consts=None, funcs=None, stop_before=None, target_map=None):
     """def <lean_name> (inputs : R) := let …; result   — result defaults to the tuple/list of outputs"""
     tree = ast.parse(open(path).read())
     fn = find_function(tree, qualname)
@@ -274,12 +303,31 @@ def translate_slice(path, qualname, inputs, outputs, lean_name, result_expr=None
     if stop_before is not None:
         cut = next((i for i, s in enumerate(stmts) if stop_before(s)), len(stmts))
         stmts = stmts[:cut]
-    tr = Tr(consts=consts, funcs=funcs)
-    wanted = needed_names(stmts, outputs, inputs) - set(inputs)
+    tr = Tr(consts=consts, funcs=funcs, target_map=target_map)
+    wanted = needed_names(stmts, outputs, inputs, tr) - set(inputs)
     res = result_expr or ("(" + ", ".join(lname(o) for o in outputs) + ")" if len(outputs) > 1 else lname(outputs[0]))
     body = tr.block(stmts, res, wanted)
     args = " ".join(lname(i) for i in inputs)
-    return f"def {lean_name} ({args} : R) :=\n{indent(body)}\n"
+    binder = f" ({args} : R)" if inputs else ""
+    return f"def {lean_name}{binder} :=\n{indent(body)}\n"
+
+
+def translate_return(path, qualname, inputs, lean_name, consts=None, funcs=None, select=None):
+    """def <lean_name> (inputs : R) : R := <the expression returned by the function / property `qualname`>.
+    The function body must be a single `return expr` (docstring allowed) unless `select(fn) -> ast.expr` picks the expression."""
+    tree = ast.parse(open(path).read())
+    fn = find_function(tree, qualname)
+    if select is not None:
+        e = select(fn)
+    else:
+        stmts = [s for s in fn.body if not (isinstance(s, ast.Expr) and isinstance(s.value, ast.Constant))]
+        if len(stmts) != 1 or not isinstance(stmts[0], ast.Return) or stmts[0].value is None:
+            raise Untranslatable(f"{qualname}: body is not a single return")
+        e = stmts[0].value
+    tr = Tr(consts=consts, funcs=funcs)
+    args = " ".join(lname(i) for i in inputs)
+    binder = f" ({args} : R)" if inputs else ""
+    return f"def {lean_name}{binder} : R :=\n  {tr.expr(e)}\n"
 
 
 class VecTr:
